@@ -19,6 +19,18 @@ def roundtrip(c):
         d1 = json.loads(txt1)
         out["keys"] = {sec: sorted(d1[sec].keys()) for sec in ("fluid", "grout", "soil", "pipe", "borehole", "simulation", "geometric_constraints", "design")}
         out["nulls"] = [f"{sec}.{k}" for sec in out["keys"] for k in d1[sec] if d1[sec][k] is None]
+        # the written file against the configuration handed to the API (same format): every value given is the value written
+        wv = []
+        for sec in out["keys"]:
+            for k, v in cfg.get(sec, {}).items():
+                w = d1[sec].get(k, "<absent>")
+                if k == "property_boundary" and isinstance(v, list) and v and isinstance(v[0][0], (int, float)) and isinstance(w, list) and w and isinstance(w[0][0], list):
+                    v = [v]              # one outline may be given bare; the constrained-search writer stores the list of outlines
+                same = (w == v) or (isinstance(v, str) and isinstance(w, str) and w.upper() == v.upper()) or \
+                    (isinstance(v, (int, float)) and not isinstance(v, bool) and isinstance(w, (int, float)) and abs(w - v) <= 1e-9 * max(1.0, abs(v)))
+                if not same:
+                    wv.append(f"{sec}.{k}: given {v!r}, written {w!r}")
+        out["written_vs_given"] = wv[:8]
         import io, contextlib
         err = io.StringIO()
         with contextlib.redirect_stderr(err):
